@@ -132,6 +132,11 @@ struct __redu_list {
 };
 
 template <typename T>
+struct __redu_identity {
+  typedef T type;
+};
+
+template <typename T>
 __redu_list<T> __redu_make_list() {
   return {};
 }
@@ -161,7 +166,7 @@ if (index < 0) {
 }
 
 template <typename T>
-void __redu_list_append(__redu_list<T> &list, const T &value) {
+void __redu_list_append(__redu_list<T> &list, const typename __redu_identity<T>::type &value) {
   T *next = new T[list.size + 1];
   for (size_t i = 0; i < list.size; ++i) {
     next[i] = list.data[i];
@@ -173,7 +178,7 @@ void __redu_list_append(__redu_list<T> &list, const T &value) {
 }
 
 template <typename T>
-void __redu_list_remove(__redu_list<T> &list, const T &value) {
+void __redu_list_remove(__redu_list<T> &list, const typename __redu_identity<T>::type &value) {
   if (list.size == 0) {
     return;
   }
